@@ -192,6 +192,66 @@ pub fn run(reg: &dyn Registry, ctx: &Ctx) -> Outcome {
     }
     ctx.add("states", jobs.len() as u64);
 
+    // runs of k consecutive deviating measurements (k successive stuck / equal / arithmetic / extreme
+    // probe deltas): the retry loop, the stuck-test history and the pool rotation under sustained
+    // misbehaviour of the timer. Run lengths: every k up to 10 and every power of two +-1 up to 4097
+    // (quick) / 16385 (thorough), i.e. across any retry bound or narrow counter one could add.
+    {
+        let kinds = [Dev::Repeat3, Dev::SameDelta, Dev::Arith, Dev::SameDeltaSkip, Dev::Jump31, Dev::BackFar, Dev::BackOne];
+        let mut lens: Vec<usize> = (1..=10).collect();
+        let mut p = 16usize;
+        while p <= if thorough { 16384 } else { 4096 } {
+            lens.extend([p - 1, p, p + 1]);
+            p *= 2;
+        }
+        // (rounds, collection index in which the run starts, measurement offset, k, kind a, kind b)
+        let mut jobs2: Vec<(u8, usize, usize, usize, Dev, Dev)> = Vec::new();
+        for rounds in [1u8, 2, 3] {
+            for coll in 0..2usize {
+                for start in 0..(rounds as usize + 2) {
+                    for &k in &lens {
+                        if k <= 10 {
+                            for &a in &kinds {
+                                for &b in &kinds {
+                                    jobs2.push((rounds, coll, start, k, a, b));
+                                }
+                            }
+                        } else if start <= 1 || start == rounds as usize + 1 {
+                            // long runs: the stuck kinds only (a run of extreme jumps is not stuck)
+                            for &a in &[Dev::Repeat3, Dev::SameDelta, Dev::Arith] {
+                                jobs2.push((rounds, coll, start, k, a, a));
+                            }
+                        }
+                    }
+                }
+            }
+        }
+        let maxk = *lens.last().unwrap();
+        let long_base = jitter_env::raw_readings(ctx.seed ^ 0x12AA, 4 * jitter_env::readings_per_word(3) + 3 * maxk + 200);
+        let locals: Vec<Local> = jobs2
+            .par_iter()
+            .map(|&(rounds, coll, start, k, a, b)| {
+                let mut st = Local::default();
+                // a half is pending when the second collection starts: [u32, u64, u32, u32]
+                let ops = vec![Op::SetRounds(rounds), Op::U32, Op::U64, Op::U32, Op::U32];
+                let per = jitter_env::readings_per_word(rounds);
+                // probe readings of collection c sit at c*per + 2, +5, +8, ... ; alternate kinds a, b
+                let devs: Vec<(usize, Dev)> = (0..k).map(|j| (coll * per + 2 + 3 * (start + j), if j % 2 == 0 { a } else { b })).collect();
+                let rd = deviate(&long_base[..(4 * per + 3 * k + 120).min(long_base.len())], &devs);
+                compare(ctx, reg, "C12", &rd, &ops, &[devs[0], (devs.len(), a)], &mut st);
+                st
+            })
+            .collect();
+        for l in &locals {
+            tot.executions += l.executions;
+            tot.transitions += l.transitions;
+            tot.horizon += l.horizon;
+            tot.completed += l.completed;
+        }
+        ctx.add("deviation_run_executions", jobs2.len() as u64);
+        ctx.set("longest_deviation_run", maxk as u64);
+    }
+
     // rounds 64 (the default) and 255 without deviations, and rounds 3 long run
     for (rounds, words) in [(64u8, 3usize), (255, 2), (3, 40)] {
         let need = jitter_env::readings_per_word(rounds) * words + 64;
@@ -256,7 +316,7 @@ pub fn run(reg: &dyn Registry, ctx: &Ctx) -> Outcome {
             traces: "executions",
             evaluations: "executions",
             distinct: "executions",
-            rule: format!("states = every history up to depth {} over {{next_u32,next_u64,fill_bytes(0|1|4|5|8|9),timer_stats(false|true),set_rounds(1|2|3)}} x initial rounds {{1,2}}; executions = each history with 0 deviations, with 1 deviation of each of 12 kinds at every reading position it consumes, and (short histories) 2 deviations; plus rounds 64/255 runs and test_timer with a deviation at every 23rd (quick) / every (thorough) of its 1601 readings; each execution is compared step by step (value and readings consumed) and in its final pool with the reference model; all executions are distinct by construction", depth),
+            rule: format!("states = every history up to depth {} over {{next_u32,next_u64,fill_bytes(0|1|4|5|8|9),timer_stats(false|true),set_rounds(1|2|3)}} x initial rounds {{1,2}}; executions = each history with 0 deviations, with 1 deviation of each of 12 kinds at every reading position it consumes, and (short histories) 2 deviations; runs of k consecutive deviating probe readings (k = 1..10 for 7x7 kind pairs; k = 2^j-1, 2^j, 2^j+1 up to 4097 (16385) for the three stuck kinds) starting at every measurement of the first and of the second collection (with a half word pending); plus rounds 64/255 runs and test_timer with a deviation at every 23rd (quick) / every (thorough) of its 1601 readings; each execution is compared step by step (value and readings consumed) and in its final pool with the reference model; all executions are distinct by construction", depth),
         },
     }
 }
